@@ -15,6 +15,7 @@ from black_it.samplers.base import BaseSampler
 from black_it.schedulers.round_robin import RoundRobinScheduler
 from harness.common import Case, inject
 from symx.core import Sym, lift
+from symx.core import reraise_if_harness  # noqa: E402
 
 LEVEL = "model_checking"
 FUNCTIONS = [
@@ -152,6 +153,7 @@ def case_step(mutator, L):
             else:
                 c.set_scheduler(RoundRobinScheduler(new))
         except Exception as e:  # noqa: BLE001
+            reraise_if_harness(e)
             return True, f"{mutator} raised {type(e).__name__}: {e}"
         after = c.samplers_id_table
         m = len(table)
@@ -275,6 +277,7 @@ def _recover(folder, c, rec):
     try:
         names = pr._get_samplers_names(folder, ids)
     except Exception as e:  # noqa: BLE001
+        reraise_if_harness(e)
         return f"_get_samplers_names raised {type(e).__name__}: {e}", None, truth
     got = dict(zip(ids, names))
     return None, got, truth
